@@ -352,6 +352,9 @@ namespace chaiscript {
     /// Main class for the dispatchkit. Handles management
     /// of the object stack, functions and registered types.
     class Dispatch_Engine {
+#ifdef CHAISCRIPT_VERIF
+      friend struct ::chaiscript_verif::Access;
+#endif
     public:
       using Type_Name_Map = std::map<std::string, chaiscript::Type_Info, str_less>;
       using Scope = utility::QuickFlatMap<std::string, Boxed_Value, str_equal>;
@@ -500,7 +503,25 @@ namespace chaiscript {
       /// Searches the current stack for an object of the given name
       /// includes a special overload for the _ place holder object to
       /// ensure that it is always in scope.
+#ifdef CHAISCRIPT_VERIF
+      /// verification hook: when set, get_object ignores (and does not update) the per-node lookup hints
+      static std::atomic<bool> &verif_ignore_hints() noexcept {
+        static std::atomic<bool> flag{false};
+        return flag;
+      }
+      static std::atomic_uint_fast32_t &verif_scratch_loc() noexcept {
+        thread_local std::atomic_uint_fast32_t loc{0};
+        return loc;
+      }
+#endif
+
       Boxed_Value get_object(std::string_view name, std::atomic_uint_fast32_t &t_loc, Stack_Holder &t_holder) const {
+#ifdef CHAISCRIPT_VERIF
+        if (verif_ignore_hints().load(std::memory_order_relaxed) && &t_loc != &verif_scratch_loc()) {
+          verif_scratch_loc() = 0;
+          return get_object(name, verif_scratch_loc(), t_holder);
+        }
+#endif
         enum class Loc : uint_fast32_t {
           located = 0x80000000,
           is_local = 0x40000000,
